@@ -18,7 +18,10 @@ CLAIM = dict(cat="proof", design="§3 C18",
    note="Trusted: Coq kernel + standard real-number axioms + Interval (its reflexive checker runs in the kernel); extraction and OCaml/libm for the correspondence only. Theorems are about exact real arithmetic; "
         "that binary64 evaluation keeps the signs/ranges is checked by an oracle on every real output of the run, not proved (finite-ness is an oracle clause only). pow is Rpower (agrees with C pow for positive base; bases proved positive). "
         "Spectrum tables themselves (built by the C++ constructors in floating point) are not modelled: their order conditions are decided per run on the dumped tables by the extracted checkers. "
-        "Masked/uniform/monochromatic/stellar-library spectra are not covered.",
+        "MaskedPhotonSourceSpectrum: the constructor's cumulative/normalise loops ARE modelled (masked_cdf, compared bit for bit with the real table on a staircase spectrum whose histogram is known exactly; "
+        "theorem: the table starts at 0, ends at 1, is non-decreasing and every random number in (0,1] is sampled inside the bins; the construction of the pinned commit is refuted with a witness and was repaired, c6efddb); "
+        "the histogram of an arbitrary unmasked spectrum is 10^7 random draws and is only sampled (Planck 40000 K instance: range, inverse-CDF and monotonicity oracle). "
+        "Uniform/monochromatic spectra are closed formulas without a table (not modelled); stellar-library spectra are not anchored.",
    technique="generic-arithmetic model, Interval tactic, reflexive table checkers, extracted-model differential correspondence")
 
 HARNESS = os.path.join(vf.VERIF, "harness/c18/atomic_harness.cpp")
